@@ -8,8 +8,21 @@ framing, the client vanishing at any byte offset, every queue exit status 0..255
 the queue program killed by a signal / not reading / not executable, hostile TCPREMOTE*/TCPLOCAL*/HELO strings.
 Oracle = reference session models in props/smtp_common.py (SMTP) and below (QMTP, QMQP), clauses 1-4 of the design.
 
+Added to the design: the start of the queue program itself fails (shim fault on the daemon's pipe()/fork(): "resource trouble =>
+temporary", 451 without 354 / exit 111).
+
 Left out relative to the design: the libFuzzer session mutator (Hypothesis + systematic sweeps only); sessions are fed from a
-file (everything pipelined, reads of up to 1024/512 bytes), network read boundaries are C05's subject."""
+file (everything pipelined, reads of up to 1024/512 bytes), network read boundaries are C05's subject.
+
+Open finding (not in known-findings.txt, therefore excluded from generation by construction and counted as
+excluded_qmtpd_rcpt_length_nondigit; reproduction in corpus/C07/findings/): qmail-qmtpd does not reject a non-digit inside the
+length of a recipient netstring ("1/:123456789," is read as a 9-byte recipient, answered K and queued).
+
+Slack that is counted, not hidden: acknowledgements of earlier QMTP messages are lost when a later message of the same
+pipelined stream is malformed (the daemon leaves with exit 100 without flushing; the messages are queued, so only the
+"committed => acknowledged" direction is affected); NUL bytes inside SMTP command lines (the documents say nothing; only the
+envelope/acknowledgement correspondence is checked); HELO name shown or not; status 82 with text not starting with D/Z; status
+115; a queue program that exits 0 without reading."""
 import os, json, re
 from lib import vlib, sandbox
 from props import smtp_common as M
@@ -26,7 +39,8 @@ RULE = ("One case = one connection to one of the three daemons: a session that i
 ASSUMPTIONS = ["client disconnect = end of file on the daemon's standard input at that byte offset; the daemon's output is never blocked",
                "the stand-in commits iff its scripted status is 0 and the envelope terminator arrived (qmail-queue.8: EOF before the extra 0 byte => abort)",
                "address-length limits are taken as 'around' 900 (SMTP) and 1000..1003 (QMTP/QMQP/qmail-queue): 899..900 resp. 999..1003 are accepted either way",
-               "exit statuses of the daemons are only checked for malformed framing (100); other statuses are undocumented",
+               "exit statuses of the daemons are only checked for malformed framing (100), a queue program that cannot be started (QMTP/QMQP: 111) and a completed QMQP exchange (0); other statuses are undocumented",
+               "the Hypothesis part runs in fixed-size rounds with seeds derived from VERIF_SEED; the number of rounds (between a fixed minimum and maximum) adapts to the load of the machine, no verdict depends on time",
                "checks run as root in the sandbox; identity is virtualised by the LD_PRELOAD shim"]
 
 KNOWN_SIGS = ("qmtpd_rcpt_length_nondigit",)
@@ -988,7 +1002,7 @@ def regress_scenarios():
 
 
 def worker(job):
-    tree, wid, seed, nex, fixed, listed = job
+    tree, wid, seed, plan, fixed, listed = job
     LISTED.clear()
     LISTED.update(listed)
     stats = vlib.Stats()
@@ -1003,8 +1017,7 @@ def worker(job):
 
     def runfn(sc, stats):
         return run_case(r, sc, stats, local_ips)
-    if nex:
-        vlib.hyp_search(scenario_st, runfn, nex, seed, stats)
+    M.search_rounds(scenario_st, runfn, seed, stats, plan)
     return stats
 
 
@@ -1017,8 +1030,8 @@ def run(ctx):
     if getattr(ctx, "only", None) and "hyp" in ctx.only:      # debugging / sensitivity of the random generator alone
         fixed = []
     nw = vlib.NCPU
-    per = ctx.n(3000, 36000)
-    jobs = [(tree, i, vlib.subseed(ctx.seed, "c07", i), per, fixed[i::nw], listed) for i in range(nw)]
+    plan = M.round_plan(ctx)
+    jobs = [(tree, i, vlib.subseed(ctx.seed, "c07", i), plan, fixed[i::nw], listed) for i in range(nw)]
     ctx.stats.merge(vlib.run_workers(worker, jobs))
     for sig, n in list(ctx.stats.known_hits.items()):
         ctx.stats.known_hits[sig] = n - 1
